@@ -2,6 +2,8 @@
 
 from __future__ import annotations
 
+import ast
+
 import enum
 import inspect
 import os
@@ -217,6 +219,11 @@ def _is_repo_module(modname):
 
 
 def wrap_global(value):
+    # a memoising wrapper (functools.lru_cache / cache) around a repository function is transparent: the function's
+    # own body is what is executed and what its contract describes
+    inner = getattr(value, "__wrapped__", None)
+    if inner is not None and hasattr(value, "cache_info") and isinstance(inner, pytypes.FunctionType):
+        value = inner
     if isinstance(value, pytypes.FunctionType) and _is_repo_module(value.__module__):
         return RepoFn(_relpath_of_module(value.__module__), value.__qualname__, value)
     if isinstance(value, type) and _is_repo_module(value.__module__):
@@ -384,9 +391,49 @@ def get_transformed(key: str, loops=None, env=None):
     return fn, info
 
 
+_RENAME_CACHE: dict = {}
+
+
+def _contract_of_renamed(key):
+    """The contract written for this function under the name it had in the tree the contracts were written against
+    (specs/function_shapes.json): a definition without contract, with the recorded shape of a name that no longer
+    exists in the same module and class."""
+    if key in _RENAME_CACHE:
+        return _RENAME_CACHE[key]
+    con = None
+    try:
+        relpath, qual = key.split("::")
+        _, node = extract.find_def(relpath, qual)
+        shape = extract.shape_of(node) if isinstance(node, (ast.FunctionDef, ast.AsyncFunctionDef)) else None
+        scope = qual.rsplit(".", 1)[0] if "." in qual else ""
+        for old, sh in extract.shapes().get("functions", {}).items():
+            orel, oqual = old.split("::")
+            oscope = oqual.rsplit(".", 1)[0] if "." in oqual else ""
+            if sh == shape and orel == relpath and oscope == scope and old in REGISTRY and old != key:
+                if extract.RENAMED.get(old) == qual or not _exists(orel, oqual):
+                    con = REGISTRY[old]
+                    extract.RENAMED[old] = qual
+                    break
+    except (extract.ExtractError, ValueError):
+        con = None
+    _RENAME_CACHE[key] = con
+    return con
+
+
+def _exists(relpath, qual):
+    src, tree = extract.read_module(relpath)
+    node = tree
+    for part in qual.split("."):
+        nxt = [c for c in getattr(node, "body", []) if isinstance(c, (ast.FunctionDef, ast.AsyncFunctionDef, ast.ClassDef)) and c.name == part]
+        if not nxt:
+            return False
+        node = nxt[0]
+    return True
+
+
 def dispatch_call(key, real, args, kwargs):
     c = sym.cur()
-    con = REGISTRY.get(key)
+    con = REGISTRY.get(key) or _contract_of_renamed(key)
     active = c.data.get("active")
     if con is not None and key != active and con.impl is not None:
         c.data.setdefault("callees", set()).add(con.qual)
